@@ -21,7 +21,7 @@ Proof.
   intros c g cent cx cy a Hos Hs He Hnx Hny Hp Bx By.
   unfold td_cent_peak in Hp.
   destruct (is_tie _ _ _ || is_tie _ _ _); [discriminate|].
-  destruct (Qlt_bool (td_lthr c) _); [|discriminate].
+  destruct (above_local (td_thr0 c) (td_lthr c) _); [|discriminate].
   inversion Hp; subst; clear Hp. unfold co_decode.
   split; apply decode_bound_gen; try assumption; apply nearest_cell_half; assumption.
 Qed.
@@ -127,7 +127,7 @@ Proof.
   - apply (d2_scale k c c' (x, y) H1 H2).
 Qed.
 
-(* comparison in ONE coordinate system (repaired code, or eff_scale = 1 as coded): the animal
+(* comparison in ONE coordinate system (current tree = repaired, or eff_scale = 1 in the pinned tree): the animal
    whose nearest visible node is strictly nearest to the centroid — in ORIGINAL pixels — is the
    one that is matched *)
 Theorem gt_match_nearest : forall fixed eff cent insts j0 kps0 d0,
@@ -246,11 +246,11 @@ Proof.
   eapply Nat.le_trans; [apply somes_length|]. rewrite map_length. apply Nat.le_refl.
 Qed.
 
-(* ------------------------------------------------------------------ F61: as coded, refuted *)
+(* ------------------------------------------------------------------ F61: pinned tree (before fix ca9ba93), refuted *)
 Definition wit_co : td_cfg :=
   {| td_H := 96; td_W := 128; td_mh := Some 48%Z; td_mw := Some 64%Z; td_sc := 1; td_si := 1;
      td_msc := 16; td_msi := 1; td_osc := 2; td_osi := 1; td_ch := 32; td_cw := 32;
-     td_sigma := 3 # 2; td_lthr := (-1609438) # 1000000 |}.
+     td_sigma := 3 # 2; td_lthr := (-1609438) # 1000000; td_thr0 := false; td_fixed_Fz := false |}.
 Definition wit_A : animal := {| an_cent := (102, 72); an_kps := [Some (100, 70); Some (104, 74)] |}.
 Definition wit_B : animal := {| an_cent := (42, 32); an_kps := [Some (40, 30); Some (44, 34)] |}.
 
